@@ -427,6 +427,12 @@ func registerMisc(e *Engine) {
 			// a pattern given on the command line: assumed to compile (an invalid one is
 			// rejected by the tool at start-up); matching against it is not modelled
 			o := &Opaque{kind: "regexp", data: &regexObj{pattern: "<symbolic>", id: -1}}
+			if !must && len(pat.segs) == 1 {
+				// a pattern taken as it is from a flag: assumed to compile (an invalid one is rejected at
+				// start-up; stated assumption of the CLI checks)
+				m.note("assumption: the --redactFieldsRegexp value is a valid regular expression")
+				return Tuple{o, Iface{}}
+			}
 			if must {
 				m.note("assumption: the --redactFieldsRegexp value is a valid regular expression")
 				return o
